@@ -487,6 +487,23 @@ fn bitboards(ctx: &mut Ctx) {
     if ctx.shard == 0 && heavy {
         ctx.exhaustive_parts.push("bitboard algebra on all 65,536 pairs of subsets of an 8-square universe at six embeddings".into());
     }
+    // full, near-full and single-square sets (shard 0)
+    if ctx.shard == 0 {
+        let mut specials: Vec<u64> = vec![0, u64::MAX];
+        for i in 0..64 {
+            specials.push(!(1u64 << i));
+            specials.push(1u64 << i);
+            specials.push(u64::MAX << i);
+            specials.push(u64::MAX >> i);
+        }
+        for (k, &a) in specials.iter().enumerate() {
+            for x in [0u64, 1, u64::MAX, 0x8000_0000_0000_0000, 0x5555_5555_5555_5555, ctx.rng.next_u64()] {
+                let b = specials[(k * 7 + 3) % specials.len()];
+                check_ops(ctx, a, b, x);
+            }
+        }
+        ctx.feature_n("special_bitboard_operands", specials.len() as u64 * 6);
+    }
     let n = ctx.budget(6_000_000, 80_000_000);
     for i in 0..n {
         let (a, b) = match i % 4 {
